@@ -126,7 +126,7 @@ def main(argv=None):
     known_pre, _ = load_known(a.prop)
     with ctx.Pool(processes=min(a.jobs, len(names)), maxtasksperchild=1) as pool:
         asyncs = [(n, pool.apply_async(_job, ((n, tier, seed, a.repo, tuple(f['obligation'] for f in known_pre if f.get('contract') in (None, n))),))) for n in names]
-        job_timeout = 840 if tier == 'quick' else 14000
+        job_timeout = int(os.environ.get('PYVC_JOB_TIMEOUT', '0')) or (840 if tier == 'quick' else 14000)
         for n, r in asyncs:
             try:
                 results.append(r.get(timeout=job_timeout))
@@ -267,6 +267,45 @@ def main(argv=None):
             if len(viol_records) >= 6 or len(seen) >= 10:
                 break       # a handful of replayed violations is enough to report; every replay is a native process
         if viol_records:
+            exit_code = 1
+    if undecided:
+        # obligations the verifier could not decide (solver budget, job timeout): look for a natively failing input of the
+        # same contract's concrete clauses (native code, random inputs satisfying the requires).  A hit is a violation
+        # with a replayed input; no hit leaves the obligation undecided (exit 2).
+        outdir = os.path.join(ROOT, 'replays', a.prop)
+        done_c = set(v['contract'] for v in viol_records)
+        t_search = time.time()
+        for cn, e in list(undecided):
+            if cn in done_c or not getattr(REGISTRY[cn], 'replayable', True) or time.time() - t_search > 600:
+                continue
+            done_c.add(cn)
+            obname = e.split(' :: ')[0]
+            os.makedirs(outdir, exist_ok=True)
+            key = hashlib.sha1(('%s|%s|search' % (cn, obname)).encode()).hexdigest()[:10]
+            path = os.path.join(outdir, '%s_%s.json' % (cn, key))
+            json.dump(dict(property=a.prop, contract=cn, obligation=obname, witness=None, repo=a.repo,
+                           verifier_detail='undecided by the verifier: ' + e[:400]), open(path, 'w'), indent=1)
+            try:
+                p2 = subprocess.run([sys.executable, '-m', 'pyvc.replay', '--search', '12', path], cwd=ROOT,
+                                    capture_output=True, text=True, timeout=420, env=dict(os.environ, PYVC_REPO=a.repo))
+            except subprocess.TimeoutExpired:
+                continue
+            if os.environ.get('PYVC_DEBUG'):
+                print('search rc=%s out=%s' % (p2.returncode, (p2.stdout + p2.stderr)[-600:]))
+            if p2.returncode != 1:
+                continue
+            fails = re.findall(r'replay: FAILS natively: (.*?) -- ', p2.stdout)
+            fails = [f for f in fails if match_known(known_open, cn, f) is None]
+            if not fails:
+                continue
+            rec = json.load(open(path))
+            rec['native_replay'] = dict(confirmed=True, output=(p2.stdout + p2.stderr)[-2500:])
+            rec['obligation'] = fails[0]
+            json.dump(rec, open(path, 'w'), indent=1, default=str)
+            print('VIOLATION property=%s replay=%s' % (a.prop, path))
+            print('  obligation: %s :: %s  [undecided by the verifier; failing input found by native search of the '
+                  'contract clauses] (replayed on native code: reproduced)' % (cn, fails[0]))
+            viol_records.append(dict(contract=cn, obligation=fails[0], replay=path, reproduced_natively=True))
             exit_code = 1
     if engine_errors and exit_code == 0:
         exit_code = 3
